@@ -152,7 +152,8 @@ def file_texts(defs, k, assign, deps, include_all, stems=None):
 
 
 ARRANGEMENTS = ('same-dir', 'one-include-dir', 'two-include-dirs', 'other-cwd-absolute', 'parent-cwd-relative',
-                'lib-dir-with-decoy')
+                'lib-dir-with-decoy', 'main-dir-is-first-I')
+MAIN_ALONE = ('lib-dir-with-decoy', 'main-dir-is-first-I')
 
 
 def decoy_of(text):
@@ -173,6 +174,8 @@ def layout_on_disk(root, texts, arrangement):
             d = os.path.join(root, 'inc1')
         elif arrangement == 'two-include-dirs' and j < k - 1:
             d = os.path.join(root, 'inc%d' % (1 + j % 2))
+        elif arrangement == 'main-dir-is-first-I' and j < k - 1 and j % 2 == 1:
+            d = os.path.join(src, 'sub')
         else:
             d = src
         os.makedirs(d, exist_ok=True)
@@ -204,6 +207,13 @@ def layout_on_disk(root, texts, arrangement):
         inputs = [os.path.relpath(paths[fn], src) for fn, _ in texts]
     if arrangement == 'lib-dir-with-decoy':
         inputs = inputs[-1:]        # the main file alone: its includes are resolved, not taken from the cache of earlier inputs
+    if arrangement == 'main-dir-is-first-I':
+        # the main file's own directory is also the first -I entry, spelled exactly like the directory part of the input;
+        # files in src/sub reach their own includes (kept in src) only through that entry
+        cwd = root
+        os.makedirs(os.path.join(src, 'sub'), exist_ok=True)
+        incs = ['-I', 'src', '-I', os.path.join('src', 'sub')]
+        inputs = [os.path.join('src', texts[-1][0])]
     return cwd, incs + inputs, out, paths
 
 
@@ -275,7 +285,7 @@ def judge(job):
                 if include_all == 'typenames' and len(set(stems_now)) < k:
                     continue
                 for arrangement in (ARRANGEMENTS if include_all != 'typenames' else ARRANGEMENTS[:2]):
-                    if arrangement == 'lib-dir-with-decoy' and include_all is not False:
+                    if arrangement in MAIN_ALONE and include_all is not False:
                         continue
                     root = T.fresh_dir('c16')
                     try:
@@ -299,7 +309,7 @@ def judge(job):
                         opened = {}
                         for p in _open_log:
                             opened[p] = opened.get(p, 0) + 1
-                        if arrangement == 'lib-dir-with-decoy':
+                        if arrangement in MAIN_ALONE:
                             real = set(os.path.abspath(p) for p in paths.values())
                             stray = [p for p in opened if p not in real]
                             if stray:
